@@ -187,7 +187,9 @@ def jpOK (C : Conn) : Prop :=
   (C.h = .closeSelf → C.phase = .login ∨ C.phase = .transition ∨ C.phase = .closed) ∧
   (C.h = .cfgKick2 → C.phase = .closed) ∧
   ((C.phase = .login ∨ C.phase = .config ∨ C.phase = .transition) → C.h = .idle → C.beh ≠ .idle → C.result = none) ∧
-  ((C.h = .sw1 ∨ C.h = .sw2 ∨ C.h = .sw3) → (C.phase = .config ∧ C.result = none) ∨ (C.phase = .closed ∧ C.result ≠ none))
+  ((C.h = .sw1 ∨ C.h = .sw2 ∨ C.h = .sw3) → (C.phase = .config ∧ C.result = none) ∨ (C.phase = .closed ∧ C.result ≠ none)) ∧
+  (C.stalled = true → C.h = .idle) ∧
+  (C.result = some .ok → C.phase = .play ∨ C.phase = .closed)
 
 def JP (s : St) : Prop := ∀ c, c < s.nconns → jpOK (s.conns c)
 
